@@ -52,6 +52,9 @@ def gen(rng, tier, idx):
         workloads.inject_ops(scn, rng, toks)
     n = rng.weighted([(3, rng.range(1, 8)), (5, rng.range(8, 30)), (2, rng.range(30, 70))])
     scn["walk"] = gen_walk(rng, n)
+    if rng.chance(15):
+        scn["faults"] = workloads.inert_environment(rng)     # the listing does not care about the history file or entropy
+        scn["winsize"] = [rng.choice([0, 5, 9, 40, 80, 200]), 24]
     return scn
 
 
@@ -124,6 +127,10 @@ def evaluate(ctx, scn):
     secs = expect.sections(scn)
     items = [["sync"]] + [list(m) for m in scn["walk"]]
     w = session.build_world(scn, sched=items, observe=True)
+    if scn.get("winsize"):
+        w["winsize"] = list(scn["winsize"])
+    for f in scn.get("faults", []):
+        ev.counters["fault:configured_" + f["kind"]] += 1
     run = ctx.run(w)
     ev.hashes.append(run.hash())
     ev.counters["term:" + run.classify()[0]] += 1
